@@ -77,11 +77,16 @@ def run(ctx):
     # ---- D1
     counter_globals = [g for g in written if any(fn is compile_fn for fn, _, _ in written[g])]
     name_assign = None
+    name_var = None
     for n in walk_no_nested(compile_fn):
-        if isinstance(n, ast.Assign) and isinstance(n.targets[0], ast.Name) and n.targets[0].id == 'fun_name':
+        if isinstance(n, ast.Call) and norm(n.func) == '_FnWrapper' and n.args and isinstance(n.args[0], ast.Name):
+            name_var = n.args[0].id
+    for n in walk_no_nested(compile_fn):
+        if isinstance(n, ast.Assign) and isinstance(n.targets[0], ast.Name) and n.targets[0].id == name_var:
             name_assign = n
     if name_assign is None:
-        ctx.error('C13.D1', 'assignment of the generated function name (fun_name) not found in _filter_function')
+        ctx.error('C13.D1', 'assignment of the generated function name (first argument of _FnWrapper) not found in '
+                            '_filter_function')
         return
     used = {x.id for x in ast.walk(name_assign.value) if isinstance(x, ast.Name)}
     atomic = [c for c in counters if 'next(%s)' % c in norm(name_assign.value)]
@@ -139,10 +144,10 @@ def run(ctx):
             if enclosing_with(name_assign) is None:
                 ctx.violation('C13.D1', '%s::_filter_function' % F, norm(name_assign),
                               'the name is built from a counter value read outside the critical section',
-                              'fun_name is assigned outside the lock that protects %s' % g, file=F,
+                              'the generated name is assigned outside the lock that protects %s' % g, file=F,
                               line=name_assign.lineno, engine='E11')
             else:
-                ctx.ob('C13.D1', 'fun_name is derived from the counter inside the same critical section', True,
+                ctx.ob('C13.D1', 'the generated name is derived from the counter inside the same critical section', True,
                        '%s:%d' % (F, name_assign.lineno))
             # exactly one increment by one
             incs = [n for n in walk_no_nested(compile_fn) if isinstance(n, ast.AugAssign)
